@@ -32,6 +32,13 @@ Fixpoint join (sep : string) (l : list string) : string :=
   | x :: r => match r with [] => x | _ => x ++ sep ++ join sep r end
   end.
 
+(* lines printed one by one, each followed by the line separator *)
+Fixpoint unlines (l : list string) : string :=
+  match l with
+  | [] => ""
+  | x :: r => x ++ s_nl ++ unlines r
+  end.
+
 (* str.isspace() on the ASCII range: \t \n \v \f \r, \x1c-\x1f, space *)
 Definition is_py_space (c : ascii) : bool :=
   let n := nat_of_ascii c in
